@@ -96,7 +96,10 @@ Inductive c01_case : Type :=
 | CLimit (bt old amt rate : Z) (a_lo a_hi : Z) (a_new : option Z) (b_lo b_hi : Z) (b_new : option Z)
 (* protobuf encodings of one custody record holding a map with keys 0..n-1 (in sorted order):
    the key orders seen in repeated Marshal calls *)
-| CMap (type : string) (n : nat) (orders : list (list nat)).
+| CMap (type : string) (n : nat) (orders : list (list nat))
+(* the begin-blocker / end-blocker / init-genesis module order of several freshly constructed
+   application instances (in this process and in a child process) *)
+| COrder (which : string) (orders : list (list string)).
 
 (* ---------------------------------------------------------------- the spec checker (generic in the digest type) *)
 Section Checker.
@@ -134,6 +137,9 @@ Definition zopt_eqb (a b : option Z) : bool :=
 Fixpoint natlist_eqb (a b : list nat) : bool :=
   match a, b with [] , [] => true | x :: r, y :: s => Nat.eqb x y && natlist_eqb r s | _, _ => false end.
 
+Fixpoint strlist_eqb (a b : list string) : bool :=
+  match a, b with [] , [] => true | x :: r, y :: s => String.eqb x y && strlist_eqb r s | _, _ => false end.
+
 (* the property, on what the real code did: equal inputs (genesis, block contents) => equal results *)
 Definition case_clauses (c : c01_case) : list string :=
   match c with
@@ -145,6 +151,8 @@ Definition case_clauses (c : c01_case) : list string :=
   | CLimit _ _ _ _ _ _ an _ _ bn => if zopt_eqb an bn then [] else ["wallclock:CustodyDecorator:limit-status"%string]
   | CMap ty _ os =>
       match os with [] => [] | o :: r => if forallb (natlist_eqb o) r then [] else [("encoding-not-canonical:" ++ ty)%string] end
+  | COrder w os =>
+      match os with [] => ["malformed:no-instance"%string] | o :: r => if forallb (strlist_eqb o) r then [] else [("module-order-differs-between-instances:" ++ w)%string] end
   end.
 
 Fixpoint violations_from (n : nat) (cs : list c01_case) : list (nat * list string) :=
@@ -201,6 +209,12 @@ Definition case_matches (c : cfg) (x : c01_case) : bool :=
       (* the model: the encoding visits the keys in [wl_encode]'s order -- any permutation when the
          marshaller ranges the Go map, the sorted order otherwise *)
       forallb (fun o => if custody_unsorted c then is_perm_of_range n o else natlist_eqb o (wl_encode c (const_env 0) 0 (seq 0 n))) os
+  | COrder w os =>
+      (* the model composes the modules in the fixed lists the translator read from app/app.go: every instance has a list of
+         that length without repetition, and all instances have the same one *)
+      let gen := if String.eqb w "BeginBlockers" then order_begin_blockers else if String.eqb w "EndBlockers" then order_end_blockers else order_init_genesis in
+      forallb (fun o => Nat.eqb (List.length o) (List.length gen) && nodup_str o) os
+      && match os with [] => false | o :: r => forallb (strlist_eqb o) r end
   end.
 
 Fixpoint mismatches_from (c : cfg) (n : nat) (cs : list c01_case) : list nat :=
